@@ -65,6 +65,11 @@ def scheme_case(which):
         base["parameters"]["pen.1"] = {"value": 1.1, "vary": False, "non_negative": True}  # fixed AND log-transformed: must survive the roll-back unchanged
         base["penalties"] = [{"source": "a", "source_intervals": [[1.0, 3.0]], "target": "b", "target_intervals": [[2.0, 4.0]], "parameter": "pen.1", "weight": 0.3}]
         base["constraints"] = [{"type": "zero", "target": "b", "interval": [1.0, 1.0]}]
+    elif which == "three_groups":
+        # several dataset groups: one objective evaluation is three group evaluations; a fault may hit any of them
+        base["datasets"] = [{"label": f"ds{i + 1}", "group": f"g{i + 1}", "t": t1[: 10 - i], "g": [1.0 + i, 2.0 + i, 3.0 + i], "layout": "mg", "megacomplex": ["m1"],
+                             "dseed": 21 + i, "id0": 100 * i, "weight": None, "scale": None, "mc_scale": None} for i in range(3)]
+        base["groups"] = {f"g{i + 1}": {"link_clp": False, "residual_function": "variable_projection"} for i in range(3)}
     else:
         base["datasets"] = [
             {"label": "ds1", "group": "g1", "t": t1, "g": [1.0, 2.0, 3.0], "layout": "mg", "megacomplex": ["m1"], "dseed": 5, "id0": 0, "weight": None, "scale": None, "mc_scale": None},
@@ -460,7 +465,7 @@ def run_invalid(rec, probe):
 # ---------------------------------------------------------------- shards
 def plan(tier, seed):
     specs = []
-    for which in ("unlinked", "linked"):
+    for which in ("unlinked", "linked", "three_groups"):
         for method in METHODS:
             specs.append({"mode": "function", "scheme": which, "method": method, "shard": len(specs)})
     nline = {"quick": 6, "thorough": 6}[tier]
